@@ -35,7 +35,9 @@ const FDESCS: &[&str] = &["I", "J", "Z", "Ljava/lang/String;", "[I", "LK0;", "[[
 const MDESCS: &[&str] = &["()V", "(I)V", "(LK0;I)LK1;", "([J)Ljava/lang/Object;", "(Lp/q/K2;[[LK1;)Z", "(IJ)D", "()LK0$In;"];
 const UNI: &[&str] = &["\u{dc}n\u{ef}", "\u{540d}", "a\u{10400}b", "\u{3b1}\u{3b2}"];
 const DOCS: &[&str] = &["a comment", "two\nlines", "  leading spaces", "with # hash", "blank\n\nline inside", "tab-free \\ backslash x", "\u{e9}\u{e8} unicode",
-	"ends with a line break\n", "\nstarts with one", "\n", "blank lines at the end\n\n"];
+	"ends with a line break\n", "\nstarts with one", "\n", "blank lines at the end\n\n",
+	// a backslash in front of letters other than n (the format escapes line breaks only)
+	"C:\\temp\\report.txt matches \\r?$", "\\0 \\u00e9 \\\\ \\"];
 
 pub fn pick<'a, T>(r: &mut StdRng, xs: &'a [T]) -> &'a T { xs.choose(r).expect("non-empty") }
 
